@@ -432,9 +432,58 @@ def doc(fmt, toks, cs):
     return path, ct, body
 
 
+def ftp_perm_classes():
+    """--preserve-permissions: hostile behaviour during the listing made AFTER the file was saved (when='after_retr')."""
+    c = {}
+    c['pm_ok'] = dict()
+    c['pm_data_refused'] = _f('PASV', ('refuse_data',), 'after_retr')
+    c['pm_list_close'] = _f('LIST', ('close',), 'after_retr')
+    c['pm_list_550'] = _f('LIST', ('reply', b'550 no listing\r\n'), 'after_retr')
+    c['pm_listing_unknown'] = dict(hostile=dict(at='data', when='after_retr',
+                                                do=('data', b'???? what is this\r\nnot a listing at all\r\n')))
+    c['pm_listing_bad_date'] = dict(hostile=dict(at='data', when='after_retr',
+                                                 do=('data', b'-rw-r--r-- 1 ftp ftp 10 Feb 31  2020 h.txt\r\n')))
+    c['pm_pasv_garbage'] = _f('PASV', ('reply', b'227 Entering Passive Mode (garbage)\r\n'), 'after_retr')
+    c['pm_end_bad_code'] = _f('end', ('reply', b'451 aborted\r\n'), 'after_retr')
+    return c
+
+
+def ftp_symlink_classes():
+    """--retr-symlinks=off: LIST payloads of /sub/ with symbolic-link lines."""
+    f = b'-rw-r--r-- 1 ftp ftp 3 Jan 01  2020 a.txt\r\n'
+    ln = b'lrwxrwxrwx 1 ftp ftp 5 Jan 01  2020 '
+    c = {}
+    c['sl_ok'] = ln + b'good -> a.txt\r\n' + f
+    c['sl_no_target'] = ln + b'latest\r\n' + f
+    c['sl_twice'] = ln + b'l -> a.txt\r\n' + ln + b'l -> a.txt\r\n' + f
+    c['sl_missing_dir'] = ln + b'nodir/deeper/x -> a.txt\r\n' + f
+    c['sl_nul'] = ln + b'a\x00b -> a.txt\r\n' + f
+    return c
+
+
+def ftp_continue_classes():
+    """--continue with a partial local copy of the target: what the server says to REST."""
+    c = {}
+    c['fc_ok'] = dict()
+    c['fc_rest_502'] = _f('REST', ('reply', b'502 Command REST not implemented\r\n', None, 'continue'))
+    c['fc_rest_multiline_501'] = _f('REST', ('reply', b'501-Syntax error\r\n501 in parameters\r\n', None, 'continue'))
+    return c
+
+
+def http_continue_classes():
+    """--continue with a partial local copy of the page: what the server says to the Range request."""
+    c = {}
+    c['hc_206'] = _p(resp(BODY[6:], status=b'HTTP/1.1 206 Partial Content',
+                          headers=(b'Content-Range: bytes 6-%d/%d' % (len(BODY) - 1, len(BODY)),)))
+    c['hc_200_range_ignored'] = _p(resp())
+    c['hc_416'] = _p(resp(b'', status=b'HTTP/1.1 416 Range Not Satisfiable', headers=(b'Content-Range: bytes */%d' % len(BODY),)))
+    return c
+
+
 def check_names(tla_wire_names, tla_tokens=None):
     """Both sides must list the same class names."""
     mine = set(page_classes()) | set(robots_classes()) | set(ftp_classes()) | set(ftp_listing_classes()) | set(ftp_parent_classes())
+    mine |= set(ftp_perm_classes()) | set(ftp_symlink_classes()) | set(ftp_continue_classes()) | set(http_continue_classes())
     theirs = set(tla_wire_names)
     if mine != theirs:
         raise AssertionError('wire classes differ: only in python %s; only in TLA+ %s'
